@@ -1,7 +1,7 @@
 #!/bin/bash
 # usage: tools/run_all.sh [tier] [seed] [extra args...]  — runs every claimed check sequentially, prints one line each
 TIER=${1:-quick}; SEED=${2:-0}; shift; shift
-cd /verif
+cd "$(dirname "$(readlink -f "$0")")/.."
 for c in $(grep -v '^#' tools/ready.txt | sort); do
   out=$(./check $c --tier $TIER --seed $SEED "$@" 2>&1 | grep -E "^VIOLATION|^HELD|^INCONCLUSIVE|^RESULT" | head -3 | cut -c1-220 | tr '\n' ' ')
   echo "$c: $out"
